@@ -1211,3 +1211,41 @@ func ruleRangeDetails(r *Run) {
 		os.OK("Start/End from the closure's start/end, Limit <= 0").At(r.pos(call.Pos()))
 	}
 }
+
+// ruleOneStepPerNext (PV-ONCE): every grid point is reported, also when its window is empty: a call
+// of rangeAggIterator.Next advances the stepper exactly once (consumers such as binary operations
+// pair the steps of their two sides by position).
+func ruleOneStepPerNext(r *Run) {
+	p := r.P
+	mp := modPath + "/" + metricPkg
+	fn := p.Method(metricPkg, "rangeAggIterator", "Next")
+	o := r.Ob("PV-ONCE", "logqlmetric.(*rangeAggIterator).Next one step per call", "each call of Next advances the evaluation grid by exactly one point and reports it (an empty window gives an empty step, not a skipped one)")
+	if fn == nil {
+		o.Fail("-", "method not found")
+		return
+	}
+	var calls []ssa.CallInstruction
+	for _, gf := range funcGroup(fn) {
+		for _, c := range callsIn(gf) {
+			if callIs(c, mp, "(*stepper).next") || callIs(c, mp, "(stepper).next") {
+				calls = append(calls, c)
+			}
+		}
+	}
+	if len(calls) != 1 {
+		o.Fail(r.pos(fn.Pos()), "expected exactly one stepper.next() call site in Next, found %d", len(calls))
+		return
+	}
+	c := calls[0]
+	cf := c.Parent()
+	for _, b := range cf.Blocks {
+		for _, sc := range b.Succs {
+			if sc.Dominates(b) && naturalLoop(sc)[c.Block()] {
+				o.Fail(r.pos(c.Pos()), "stepper.next() is called inside a loop: one call of Next can consume several grid points, so some points are never reported")
+				return
+			}
+		}
+	}
+	// the step it returns is stamped with that grid point on every `return true`
+	o.OK("one stepper.next() per Next, outside any loop").At(r.pos(c.Pos()))
+}
